@@ -10,7 +10,8 @@ RULE = (
     "requests of every outcome class (syntax error by truncation, validation error, missing required "
     "variable, unknown and ambiguous operation name, successful and partially failing executions with "
     "ResolverError and nulls in non-null positions) are issued with 1-3 stacked recording "
-    "instrumentations and 0-3 recording middlewares under all six executor/runtime configurations, "
+    "instrumentations (plus 0-2 partial members overriding 1-4 hooks each, which must receive exactly "
+    "the firings of those hooks that a full member receives) and 0-3 recording middlewares under all six executor/runtime configurations, "
     "the deferred ones under the schedule controller; all hooks, middlewares and resolver spies "
     "append to one thread-safe event log with a logical clock, checked offline: stage grammar "
     "(pairs, nesting, at most once, ends present, expected stages per outcome class), one "
